@@ -301,4 +301,108 @@ def rule_e(ctx):
     return r
 
 
-RULES = [rule_a, rule_b, rule_c, rule_d, rule_e]
+# ---------------------------------------------------------------------------------------------
+def _config_classes(body, op, depth=0):
+    """Classes of the `configuration: Option<Rc<RefCell<Configuration>>>` argument over all definitions reaching it:
+    'none' | 'fresh' (Configuration::empty / ::explicit built here) | 'derived:<fn>' | 'other:<what>'."""
+    if depth > 6:
+        return {"other:depth"}
+    if op.place is None:
+        return {"none"} if "Option" in (op.const or {}).get("ty", "") else {"other:const"}
+    if op.place.proj:
+        return {"other:projection"}
+    out = set()
+    defs = body.defs_of(op.place.local)
+    if not defs:
+        return {"other:no-def"}
+    for bb, i, d in defs:
+        if isinstance(d, dict):
+            if d["k"] == "agg" and d.get("variant") == "None":
+                out.add("none")
+            elif d["k"] == "agg" and d.get("variant") == "Some":
+                out |= _config_payload(body, Operand(d["ops"][0]), depth + 1)
+            elif d["k"] == "use":
+                out |= _config_classes(body, Operand(d["op"]), depth + 1)
+            elif d["k"] == "ref" and all(e["k"] == "deref" for e in d["p"].get("p", [])):
+                out |= _config_classes(body, Operand({"k": "copy", "p": {"l": d["p"]["l"]}}), depth + 1)
+            else:
+                out.add("other:" + d["k"])
+        else:
+            t2 = an.tail2(d.callee)
+            if t2 in ("Clone::clone", "Option::clone") and d.args:
+                out |= _config_classes(body, d.args[0], depth + 1)
+            else:
+                out.add("other:" + str(t2))
+    return out
+
+
+def _config_payload(body, op, depth=0):
+    if depth > 8 or op.place is None:
+        return {"other:payload"}
+    if op.place.proj:
+        ap = an.trace_operand(body, op)
+        if ap.root[0] == "call":
+            nm = ap.root[1]
+            return {"fresh"} if nm.endswith("Configuration::empty") or nm.endswith("Configuration::explicit") else {"derived:" + nm.rsplit("::", 1)[-1]}
+        return {"other:%r" % (ap,)}
+    out = set()
+    for bb, i, d in body.defs_of(op.place.local):
+        if isinstance(d, dict):
+            if d["k"] in ("use",):
+                out |= _config_payload(body, Operand(d["op"]), depth + 1)
+            elif d["k"] == "ref" and all(e["k"] == "deref" for e in d["p"].get("p", [])):
+                out |= _config_payload(body, Operand({"k": "copy", "p": {"l": d["p"]["l"]}}), depth + 1)
+            else:
+                out.add("other:" + d["k"])
+            continue
+        t2 = an.tail2(d.callee)
+        name = d.name() or ""
+        if t2 in ("Clone::clone", "Rc::clone", "Rc::new", "RefCell::new", "Try::branch") and d.args:
+            out |= _config_payload(body, d.args[0], depth + 1)
+        elif name.endswith("Configuration::empty") or name.endswith("Configuration::explicit"):
+            out.add("fresh")
+        elif name:
+            out.add("derived:" + name.rsplit("::", 1)[-1])
+        else:
+            out.add("other:indirect")
+    if not out:
+        # `f()?` payloads and struct fields
+        ap = an.trace_operand(body, op)
+        if ap.root[0] == "call":
+            out.add("derived:" + ap.root[1].rsplit("::", 1)[-1])
+        else:
+            out.add("other:%r" % (ap,))
+    return out
+
+
+CONFIG_TABLE = {
+    # caller -> allowed classes of the configuration argument of load_module
+    "grass_compiler::evaluate::visitor::Visitor::visit_use_rule": ({"fresh"}, "`@use` starts from its own `with` clause or an empty configuration; None would make execute() fall back to the "
+                                                                         "configuration of the module being evaluated"),
+    "grass_compiler::evaluate::visitor::Visitor::visit_forward_rule": ({"derived:add_forward_configuration", "none"}, "`@forward` passes the enclosing configuration through (through_forward) by design"),
+}
+
+
+def rule_f(ctx):
+    r = RuleResult("C12-f", "module isolation: `@use` never inherits the configuration of the module that contains it — load_module receives a configuration built "
+                   "from the rule's own `with` clause (or an empty one) at every call outside @forward")
+    prog = ctx.prog()
+    n = 0
+    for b in prog.bodies.values():
+        for c in b.calls():
+            if not (c.name() or "").endswith("evaluate::visitor::Visitor::load_module"):
+                continue
+            n += 1
+            classes = _config_classes(b, c.args[2])
+            key = "%s|load_module-configuration" % b.root
+            allowed, why = CONFIG_TABLE.get(b.root, ({"fresh"}, "callers other than @forward must not inherit the enclosing configuration"))
+            if classes <= allowed:
+                r.ok(key, classes=sorted(classes))
+            else:
+                r.violate(key, "%s passes a configuration of class %s to load_module (allowed here: %s): %s" % (b.path, sorted(classes - allowed), sorted(allowed), why), c.loc())
+    r.floor("load_module call sites", n, 3)
+    return r
+
+
+RULES = [rule_a, rule_b, rule_c, rule_d, rule_e, rule_f]
+
